@@ -308,11 +308,11 @@ def run(ctx):
         ops = json.load(open(ctx.replay)).get("ops", [])
     else:
         ops = [l.rstrip("\n") for l in open("props/C40/corpus.ops") if l.strip() and not l.startswith("#")]
-        for _ in range(ctx.scale(1500, 40000)):
+        for _ in range(ctx.scale(1500, 30000)):
             ops += gen_scenario(ctx.rng)
-        for _ in range(ctx.scale(400, 10000)):
+        for _ in range(ctx.scale(400, 8000)):
             ops += gen_seq(ctx.rng)
-        for _ in range(ctx.scale(40, 1500)):
+        for _ in range(ctx.scale(40, 1000)):
             ops += gen_stress(ctx.rng)
         for sc in enum_scenarios(ctx.scale(5, 9)):
             ops += sc
